@@ -27,7 +27,7 @@ pub fn sim_case(max_trace: usize, max_machines: usize, zero: bool, with_pps: boo
         sim_machines(max_machines, &mp),
         sim_machines(max_machines, &mp),
         sim_fracs(),
-        any::<u64>(),
+        seed(),
         (any::<bool>(), any::<bool>(), 200usize..1500),
     )
         .prop_map(|(trace, delay_ns, pps, client, server, fracs, seed, (continue_after, hand_queue, iters))| SimCase {
